@@ -1,6 +1,8 @@
 """C16 -- segment labelling scores equal their clustering-index definitions."""
 import math
 
+from collections import Counter
+
 import numpy as np
 from hypothesis import strategies as st
 
@@ -106,7 +108,62 @@ def pred_indices(case, ctx):
     return ka >= 2 and kb >= 2 and not bij
 
 
+@st.composite
+def long_case(draw):
+    """Long annotations / small frames: 2^13 .. 2^19 frames.  Boundaries are multiples of the (dyadic) frame size, so the
+    contingency table is known in closed form from the interval overlaps and no frame sequence has to be built by the oracle."""
+    c = draw(gs.segmentation_pair(q=8, max_T=16))
+    fs = draw(st.sampled_from([1.0, 0.25, 0.0625, 1 / 64]))
+    e = draw(st.sampled_from([10, 12, 14, 15, 16, 16, 17, 17, 18, 19]))
+    T = c["ref_iv"][-1][1]
+    S = max(8 * fs, 2.0 ** math.ceil(math.log2(2 ** e * fs / T)))     # power of two: scaling and the frame count stay exact
+    for k in ("ref_iv", "est_iv"):
+        c[k] = [[s * S, e_ * S] for s, e_ in c[k]]
+    c["frame_size"] = fs
+    return c
+
+
+def pred_long(case, ctx):
+    fs, beta = case["frame_size"], case["beta"]
+    T = case["ref_iv"][-1][1]
+    n = int(T / fs)
+    if n > 2 ** 20 or n < 2 ** 10:
+        ctx.skip("frame count outside 2^10 .. 2^20")
+        return False
+    # frame k*fs belongs to the later interval on a shared boundary and the frame at T is not sampled -> [s, e) holds (e-s)/fs frames
+    cnt = Counter()
+    for (s1, e1), l1 in zip(case["ref_iv"], case["ref_lab"]):
+        for (s2, e2), l2 in zip(case["est_iv"], case["est_lab"]):
+            ov = min(e1, e2) - max(s1, s2)
+            if ov > 0:
+                cnt[(l1.lower(), l2.lower())] += int(ov / fs)
+    o = oc.indices_from_counts(cnt)
+    assert o["n"] == n, (o["n"], n)
+    args = (_arr(case["ref_iv"]), list(case["ref_lab"]), _arr(case["est_iv"]), list(case["est_lab"]))
+    ari = ctx.call(segment.ari, *args, frame_size=fs)
+    _cmp("ari (%d frames)" % n, ari, o["ari"], 1e-9, case)
+    bij = len(cnt) == o["k_ref"] == o["k_est"]
+    if bij and not abs(ari - 1.0) <= 1e-9:
+        raise Violation("ARI = %r although the two frame partitions coincide; %r" % (ari, case))
+    if n <= 2 ** 17 + 2 ** 16:
+        mi, ami, nmi = ctx.call(segment.mutual_information, *args, frame_size=fs)
+        _cmp("mutual information (%d frames)" % n, mi, o["mi"], 1e-9, case)
+        _cmp("adjusted mutual information (%d frames)" % n, ami, o["ami"], 1e-6, case)
+        one_zero = (o["h_ref"] == 0) != (o["h_est"] == 0)
+        _cmp("normalized mutual information (%d frames)" % n, nmi, o["nmi"], 1e-4 if one_zero else 1e-9, case)
+        ctx.event("mutual_information_compared")
+    for marg in (False, True):
+        ov, un, ff = ctx.call(segment.nce, *args, frame_size=fs, beta=beta, marginal=marg)
+        _cmp("nce over (marginal=%s, %d frames)" % (marg, n), ov, o["nce", marg][0], 1e-9, case)
+        _cmp("nce under (marginal=%s, %d frames)" % (marg, n), un, o["nce", marg][1], 1e-9, case)
+    ctx.event("frames>=2^%d" % int(math.log2(n)))
+    return o["k_ref"] >= 2 and o["k_est"] >= 2 and not bij
+
+
 SUBPROPS = [
+    SubProp("many_frames", pred_long, strategy=long_case, n=(60, 1500), shards=(6, 16), floor=0.1,
+            rule="the same annotations stretched to 2^10..2^19 frames (long recording / small frame_size); ARI, MI, AMI, NMI, NCE against the contingency "
+                 "table derived from interval overlaps (pairwise / Rand build n x n matrices and are not run here); NT = >= 2 labels each side, not a bijection"),
     SubProp("clustering_indices", pred_indices, strategy=gs.segmentation_pair, n=(2500, 60000), shards=(4, 16), floor=0.15,
             rule="NT = both annotations have >= 2 frame labels and the label correspondence is not a bijection"),
 ]
